@@ -250,3 +250,13 @@ def gen_serve_verdicts(rng, count):
                             raw = good_frame(rng, serial, ftype=ftype, w16=w16, maxwords=20)
                             v = [st, rng.choice([0, 0xc0dbdcdd, 0xffffffff, rng.randrange(2**32)]), rng.randrange(256)]
                             yield serve_line(serial, mem16, rng.randrange(2), rng.choice([128, 256]), [], wire(serial, raw), v)
+
+def with_lending(lines):
+    """every length-prefix (TCP) rp.serve case is also served from a source that lends a transfer buffer (getbuffer extension; 5 and
+    64 octets): the plumbing then hands the frame to the receive sink in CHUNKS that may exceed the room left in the block"""
+    for l in lines:
+        yield l
+        t = l.split(' ')
+        if t[0] == 'rp.serve' and t[1] == '0':
+            for soct in ('2', '3'):
+                yield ' '.join(t[:3] + [soct] + t[4:])
